@@ -428,6 +428,7 @@ type FuncContract struct {
 	Pure     bool // body is its own contract: inlined at call sites
 	Sweep    bool // no-panic sweep
 	Trusted  bool // contract assumed, body not checked
+	Functional bool // result is a function of the arguments alone (reads only immutable data): calls are modelled by an uninterpreted function
 	Recovers string
 	Panics   []string // allowed explicit panic types
 	Measure  *Clause  // recursion measure
@@ -444,7 +445,14 @@ type GuardSpec struct {
 	Fields         map[string]bool
 }
 
+type FrozenSpec struct {
+	TypePkg string   // package whose struct types are immutable ...
+	Except  []string // ... outside these packages (path suffixes)
+	File    string
+}
+
 type ContractSet struct {
+	Frozen     []*FrozenSpec
 	Guards     []*GuardSpec
 	LockExempt map[string]bool // function keys
 	LockEntry  map[string]bool // entry points called by the dispatcher without the mutex
@@ -462,7 +470,7 @@ var hitsRe = regexp.MustCompile(`hits\("([^"]+)"\)`)
 var clauseKeywords = map[string]bool{
 	"spec": true, "rec": true, "axiom": true, "lemma": true, "func": true, "props": true,
 	"requires": true, "ensures": true, "loop": true, "assigns": true, "pure": true, "sweep": true,
-	"trusted": true, "end": true, "at": true, "typeinv": true, "unchecked": true, "default-nonnil": true, "guarded": true, "lock-exempt": true, "lock-entry": true, "recovers": true, "panics": true, "measure": true, "use": true, "opt": true,
+	"trusted": true, "end": true, "at": true, "functional": true, "typeinv": true, "unchecked": true, "default-nonnil": true, "guarded": true, "lock-exempt": true, "lock-entry": true, "frozen": true, "recovers": true, "panics": true, "measure": true, "use": true, "opt": true,
 }
 
 func parseParams(s string) ([]SpecParam, error) {
@@ -628,6 +636,19 @@ func (cs *ContractSet) ParseContractText(pkgPath, file, text string) error {
 				g.Fields[f] = true
 			}
 			cs.Guards = append(cs.Guards, g)
+		case "frozen":
+			// frozen <type package path suffix> except <pkg suffix> <pkg suffix> ...
+			fs := strings.Fields(rc.rest)
+			if len(fs) < 1 {
+				return errf(fmt.Errorf("frozen: want '<type package> [except pkg...]'"))
+			}
+			fz := &FrozenSpec{TypePkg: fs[0], File: file}
+			for _, f := range fs[1:] {
+				if f != "except" {
+					fz.Except = append(fz.Except, f)
+				}
+			}
+			cs.Frozen = append(cs.Frozen, fz)
 		case "lock-entry":
 			if cs.LockEntry == nil {
 				cs.LockEntry = map[string]bool{}
@@ -692,6 +713,8 @@ func (cs *ContractSet) ParseContractText(pkgPath, file, text string) error {
 				cur.Extra["sweep"] = append(cur.Extra["sweep"], strings.Fields(rc.rest)...)
 			case "trusted":
 				cur.Trusted = true
+			case "functional":
+				cur.Functional = true
 			case "recovers":
 				cur.Recovers = strings.TrimSpace(rc.rest)
 			case "panics":
